@@ -20,6 +20,12 @@ OPS = [(r" < ", " <= "), (r" <= ", " < "), (r" > ", " >= "), (r" >= ", " > "), (
        (r"saturating_sub", "wrapping_sub"), (r"\bread_exact\(", "read("), (r"\bwrite_all\(", "write("),
        (r"\? as usize", "? as usize + 1"), (r"\.take\(", ".skip("), (r" / ", " % "), (r" % ", " / ")]
 CHECKS = ["C11", "C10", "C01", "C02", "C05", "C03", "C04", "C09", "C12", "C13", "C14", "C06", "C08"]
+# second profile (MUT_PROFILE=tools): the command line tool, the key parser, the C bindings
+if os.environ.get("MUT_PROFILE") == "tools":
+    FILES = {"mlar/src/main.rs": 1288, "curve25519-parser/src/lib.rs": 337, "bindings/C/src/lib.rs": 713}
+    CHECKS = ["C18", "C19", "C16", "C17", "C20"]
+SUITE = ["cargo", "test", "--offline", "-p", "mla"] if os.environ.get("MUT_PROFILE") != "tools" else ["cargo", "test", "--offline", "-p", "mlar", "-p", "curve25519-parser", "-p", "mla-bindings-c"]
+BUILD = ["cargo", "build", "--offline", "-p", "mla"] if os.environ.get("MUT_PROFILE") != "tools" else ["cargo", "build", "--offline", "-p", "mlar", "-p", "curve25519-parser", "-p", "mla-bindings-c"]
 NSLOTS = int(os.environ.get("MUT_SLOTS", "3"))
 
 
@@ -80,11 +86,11 @@ def run(slot, listfile):
         open(p, "w").write("\n".join(lines))
         m["mutated"] = lines[m["line"] - 1].strip()[:140]
         env = {"CARGO_TARGET_DIR": td, "CARGO_NET_OFFLINE": "true"}
-        rc, out = sh(["cargo", "build", "--offline", "-p", "mla"], cwd=wt, env=env)
+        rc, out = sh(BUILD, cwd=wt, env=env)
         if rc != 0:
             m["verdict"] = "does-not-compile"
         else:
-            rc, out = sh(["cargo", "test", "--offline", "-p", "mla"], cwd=wt, env=env, timeout=1500)
+            rc, out = sh(SUITE, cwd=wt, env=env, timeout=1500)
             if rc != 0:
                 m["verdict"] = "killed-by-suite"
                 m["suite"] = re.findall(r"^test (\S+) \.\.\. FAILED", out, flags=re.M)[:4] or ["timeout" if rc == 124 else "build/other"]
